@@ -54,6 +54,16 @@ class C03(C20):
             case['replaced'] = []
             case['mixed_text'] = case['text']
         case['dyn'] = []
+        if src.n(3) == 2:
+            # dynamic facts with numeric columns beside the program (read-only during the query: still side-effect
+            # free); queries pair a variable with a number in an earlier position and numbers in later ones
+            keys = [(h[1], len(h[2])) for h, _ in tt(case['clauses']) if h[0] == 'f' and len(h[2]) >= 2]
+            name, n = src.pick(keys) if keys and src.n(2) else ('edge', 2 + src.n(2))
+            for _ in range(2 + src.n(3)):
+                case['dyn'].append(('f', name, tuple(('i', 1 + src.n(3)) for _ in range(n))))
+            qs = list(case['queries'])
+            qs[0] = ('f', name, tuple(gen.QVARS[i % 3] if (i == 0 or src.n(3) == 0) else ('i', 1 + src.n(3)) for i in range(n)))
+            case['queries'] = qs
         for r in case['replaced']:
             r['raise_at'] = 0
         case['queries'] = case['queries'][:2]
@@ -111,8 +121,13 @@ class C03(C20):
         classes = set()
         nontrivial = False
         decided = 0
+        dyn = tt(case.get('dyn') or [])
+
+        def ref_setup(it):
+            for t in dyn:
+                it.assert_fact(t)
         for q in tt(case['queries']):
-            st, ref, it = C.run_ref(prog, q, variadic=variadic)
+            st, ref, it = C.run_ref(prog, q, variadic=variadic, setup=ref_setup)
             if 'findall-nonground-instance' in it.events or st == 'unspec':
                 continue
             if st == 'budget':
@@ -141,6 +156,9 @@ class C03(C20):
             yp = impl.BudgetYP(10 * it.steps + 500)
             if code:
                 yp.load_script_from_string(code)
+            for t in tt(case.get('dyn') or []):
+                vm = {}
+                yp.assert_fact(yp.atom(t[1]), [impl.to_engine(yp, x, vm) for x in (t[2] if t[0] == 'f' else ())])
             for r in case['replaced']:
                 rows = [tuple(x) for x in tt(r['rows'])]
                 r2 = dict(r, raise_at=(ending['n'] if kind == 'pyraise' else 0))
